@@ -133,13 +133,16 @@ def short(q):
     return q.split('::')[-1]
 
 
+TIER = ['thorough']
+
+
 def driver2():
     """instantiation-only driver generated from the table list: names from_string<T>, scat(T), make_enum(.., T), value<T>(),
     operator=(T) for every T, and spells every enumerator that occurs in a table as a constant (so that clang prints its value)"""
-    tabs = tables()
-    hs, _ = enum_headers()
+    tabs = {q: tables()[q] for q in quick_enums(TIER[0])}
+    incl = sorted({t['file'] for t in tabs.values() if t['file']})
     lines = ['// GENERATED (specs/C19/enums.py): instantiation-only driver, no logic', '#include <nano/parameter.h>']
-    lines += [f'#include <{rel}>' for _, rel in hs]
+    lines += [f'#include "{f}"' for f in incl]
     lines += ['namespace nvdrv_from_string_vals', '{']
     for q, t in sorted(tabs.items()):
         names = []
@@ -155,7 +158,7 @@ def driver2():
               '    static parameter_t& assign(parameter_t& p, E v) { return p = v; }', '};']
     lines += [f'template struct enum_probe<{q}>;' for q in sorted(tabs)]
     lines += ['} // namespace nvdrv', '']
-    path = os.path.join(_gen_dir(), 'c19_enum_driver.cpp')
+    path = os.path.join(_gen_dir(), f'c19_enum_driver_{TIER[0]}.cpp')
     _write(path, '\n'.join(lines))
     return path
 
@@ -282,9 +285,31 @@ def scat_fn(q, cname='scat_enum'):
               opaque=[r'^(nano::string_t|std::string|std::basic_string<char>)$'])
 
 
-def targets():
+def registered_names():
+    """short names of the enumeration types that some `parameter_t::make_enum("..", T::x)` call site of /repo/src names (TEXT scan).
+    Used ONLY to schedule: tables of registered enumerations are checked in the quick tier, all tables in the thorough tier."""
+    out = set()
+    for root, _, files in os.walk(os.path.join(astload.REPO, 'src')):
+        for fn in files:
+            if fn.endswith(('.cpp', '.h')):
+                try:
+                    txt = open(os.path.join(root, fn), errors='replace').read()
+                except OSError:
+                    continue
+                for m in re.finditer(r'make_enum\(\s*"[^"]*"\s*,\s*([\w:]+)::\w+\s*\)', txt):
+                    out.add(m.group(1).split('::')[-1])
+    return out
+
+
+def quick_enums(tier):
+    reg = registered_names()
+    return [q for q in sorted(tables()) if tier == 'thorough' or short(q) in reg or not reg]
+
+
+def targets(tier='thorough'):
+    TIER[0] = tier
     out = []
-    for q in sorted(tables()):
+    for q in quick_enums(tier):
         sn = short(q)
         n = len(tables()[q]['entries'])
         maxlen = max(len(s) for _, s in tables()[q]['entries'])
